@@ -124,18 +124,19 @@ def answerRun (st : St) (line : String) : St × String :=
           | some r =>
             (st, s!"ev:{fListD fNat (r.events.map Ev.tag)} {fmtPairs r.pairs} org:{fListD fNat r.org}")
       else
-        let perm := (mode.drop 2).toString
+        -- mode = T:<sigma|N>[:<n_events|N>]  or  H:<sigma|N>[:<n_events|N>]
+        let parts := mode.splitOn ":"
+        let perm := parts.getD 1 "N"
+        let nev := parts.getD 2 "N"
         let argsort : Option (List Ev → List Nat) :=
           if perm == "N" then none else some (fun _ => pList pN perm)
-        if mode.startsWith "H:" then
-          match initTrialObj true st.tdm K evs (chainAll ms) argsort with
-          | none => (st, "ERR")
-          | some s =>
-            ({ st with tdm := s }, s!"ev:{fListD fNat (s.events.map Ev.tag)} {fmtPairs (s.srcEvtIdxs.getD [])}")
-        else
-          match initTrial K evs (chainAll ms) argsort with
-          | none => (st, "ERR")
-          | some t => (st, s!"ev:{fListD fNat (t.events.map Ev.tag)} {fmtPairs t.pairs}")
+        let nEv : Option Nat := if nev == "N" then none else some (pN nev)
+        let self : TdmObj Ev := if mode.startsWith "H:" then st.tdm else TdmObj.fresh
+        match initTrialObj true self K evs (chainAll ms) argsort nEv with
+        | none => (st, "ERR")
+        | some s =>
+          let ans := s!"ev:{fListD fNat (s.events.map Ev.tag)} {fmtPairs (s.srcEvtIdxs.getD [])} nv:{(s.nValues.getD 0)} ns:{s.nSources} ne:{s.nEvents} bkg:{s.nPureBkg}"
+          (if mode.startsWith "H:" then { st with tdm := s } else st, ans)
   | ["batch", b, k, n] =>
     let rows := batchedMask (pN b) (pN k) (pN n) (fun k => List.replicate (pN n) (k % 2 == 1))
     (st, fListD (fun row => "r" ++ String.join (row.map fB)) rows)
